@@ -692,7 +692,7 @@ class Check:
                     ob.trivial = True
                     ob.status = "sat" if asr.attr else "unsat"
                     ob.route = "simplified"
-                    ob.model = [] if asr.attr else None
+                    ob.model = [0] * len(ob.vars) if asr.attr else None   # constant-true assertion: every assignment is a model
                     continue
                 routes = ob.routes or INT_ROUTES
                 texts = {}
